@@ -19,6 +19,7 @@ Pipeline
 from __future__ import annotations
 
 import atexit
+import ast
 import contextlib
 import enum
 import hashlib
@@ -51,7 +52,11 @@ MANIFEST = {
             "tied to /repo by regenerating the keys popped by _run_component and the CLI's own options into Gen/CliTables (pinned by "
             "C12_tables_pinned) and the full statement list of _run_component plus the parser-building calls of _add_component_to_parser "
             "(add_class_arguments with / without group, required subcommands, per-method --config and add_method_arguments, add_function_arguments, "
-            "sub_configs=True; pinned by C12_statements_pinned), by building real modules from generated signatures and comparing, for every case, the parser auto_cli constructs "
+            "sub_configs=True; pinned by C12_statements_pinned); auto_cli(set_defaults=...) and positional-only parameters are in the model "
+            "(autoCliX): the callee receives the given value, else the set_defaults value, else the signature default "
+            "(C12_set_defaults_binding, C12_set_defaults_param), a positional-only parameter with a parser argument makes the call a TypeError "
+            "(open finding C12-positional-only-typeerror, C12_positional_only_witness) and without one nothing changes (C12_ext_conservative); "
+            "tied by building real modules from generated signatures and comparing, for every case, the parser auto_cli constructs "
             "and the recorded calls / return value / error class with the model; the property is also evaluated directly on the real code against "
             "an expectation computed from the signature alone.",
     "level_note": "Trusted: Lean kernel; axioms propext/Quot.sound/Classical.choice only; the extractor; the correspondence harness and its generators; "
@@ -59,7 +64,8 @@ MANIFEST = {
                   "correspondence only. The full statement is false for parameters named like the CLI's own keys (open finding C12-reserved-names, "
                   "negation proved: C12_binding_needs_guard) and is proved under the decidable guard noReserved. Further open findings reproduced by "
                   "the model: C12-subcommand-name-is-parent-dest, C12-private-optional. Outside the model: argparse abbreviation matching (open "
-                  "finding C12-prefix-of-parent-options), docstrings, coroutines, properties, positional-only parameters, untyped parameters, "
+                  "finding C12-prefix-of-parent-options), docstrings, coroutines, properties, positional-only parameters of signatures with **kwargs, "
+                  "set_defaults for private parameters and inside lists / dicts of components, untyped parameters, "
                   "a constructor parameter called `subcommand` of a class with methods (type-dependent).",
 }
 
@@ -69,6 +75,7 @@ F_PARENT_DEST = "C12-subcommand-name-is-parent-dest"
 F_PRIVATE_OPT = "C12-private-optional"
 F_STRDEF = "C12-string-default-reparsed"
 F_ENUM_CLASH = "C12-namespace-member-name-unconverted"
+F_POSONLY = "C12-positional-only-typeerror"
 CLASH = {"items", "keys", "values", "get", "pop", "update", "clone", "as_dict"}
 
 # ---------------------------------------------------------------------------------------------
@@ -190,18 +197,20 @@ def param_src(p):
 def sig_src(sig, with_self=False):
     parts = ["self"] if with_self else []
     star_done = False
-    for p in sig:
+    for i, p in enumerate(sig):
         if p["kind"] == "vp":
             star_done = True
         if p["kind"] == "ko" and not star_done:
             parts.append("*")
             star_done = True
         parts.append(param_src(p))
+        if p["kind"] == "po" and (i + 1 == len(sig) or sig[i + 1]["kind"] != "po"):
+            parts.append("/")               # the parameters before it are positional-only
     return ", ".join(parts)
 
 
 def named(sig):
-    return [p for p in sig if p["kind"] in ("pk", "ko")]
+    return [p for p in sig if p["kind"] in ("pk", "ko", "po")]
 
 
 def body_src(target, sig, indent, ret=True):
@@ -313,12 +322,15 @@ def visible(p):
     return True
 
 
-def expect_binding(sig, given):
-    """name -> canonical value for every named parameter; None if a parameter has nothing to be bound to"""
+def expect_binding(sig, given, sd=None):
+    """name -> canonical value for every named parameter; None if a parameter has nothing to be bound to
+    (sd: the values of auto_cli's set_defaults for this signature, {name: value index})"""
     out = {}
     for p in named(sig):
         if p["name"] in given:
             out[p["name"]] = TYPES[p["type"]][1][given[p["name"]]][3]
+        elif sd and p["name"] in sd:
+            out[p["name"]] = TYPES[p["type"]][1][sd[p["name"]]][3]
         else:
             has, d = eff_default(p)
             if not has:
@@ -340,18 +352,19 @@ def selected(case):
 def expectation(case):
     """('ok', calls, ret) or ('parse',)"""
     c = selected(case)
+    sd = case.get("set_defaults") or {}
     if c["kind"] == "func":
-        b = expect_binding(c["sig"], case["top"])
+        b = expect_binding(c["sig"], case["top"], sd.get("top"))
         if b is None:
             return ("parse",)
         return ("ok", [["func:" + c["name"], b]], "func:" + c["name"])
-    b1 = expect_binding(c["init"], case["top"])
+    b1 = expect_binding(c["init"], case["top"], sd.get("top"))
     if not c["methods"]:
         if b1 is None:
             return ("parse",)
         return ("ok", [["init:" + c["name"], b1]], "init:" + c["name"])
     m = [x for x in c["methods"] if x["name"] == case["method"]][0]
-    b2 = expect_binding(m["sig"], case["sub"])
+    b2 = expect_binding(m["sig"], case["sub"], sd.get("sub"))
     if b1 is None or b2 is None:
         return ("parse",)
     t = "method:%s.%s" % (c["name"], m["name"])
@@ -570,6 +583,47 @@ def real_structure(root, case):
         return {"unreadable": type(ex).__name__ + ": " + str(ex)[:100]}
 
 
+def set_defaults_kw(case):
+    """auto_cli(set_defaults={name: value, "method.name": value}) of a case (single component)"""
+    sd = case.get("set_defaults")
+    if not sd:
+        return {}
+    c = selected(case)
+    top_sig = c["sig"] if c["kind"] == "func" else c["init"]
+    d = {}
+    for n, i in (sd.get("top") or {}).items():
+        p = [q for q in named(top_sig) if q["name"] == n]
+        d[n] = ast.literal_eval(TYPES[p[0]["type"]][1][i][2]) if p else i       # the Python value of the declared type
+    if sd.get("sub"):
+        msig = [x for x in c["methods"] if x["name"] == case["method"]][0]["sig"]
+        for n, i in sd["sub"].items():
+            p = [q for q in named(msig) if q["name"] == n]
+            d["%s.%s" % (case["method"], n)] = ast.literal_eval(TYPES[p[0]["type"]][1][i][2]) if p else i
+    return {"set_defaults": d}
+
+
+def ext_of(case):
+    """positional-only names and set_defaults of the selected component, for the model (None: a plain case)"""
+    c = selected(case)
+    top_sig = c["sig"] if c["kind"] == "func" else c["init"]
+    msig = []
+    if c["kind"] == "cls" and c["methods"] and case.get("method"):
+        msig = [x for x in c["methods"] if x["name"] == case["method"]][0]["sig"]
+    po_top = [p["name"] for p in top_sig if p["kind"] == "po"]
+    po_sub = [p["name"] for p in msig if p["kind"] == "po"]
+    sd = case.get("set_defaults") or {}
+    if not (po_top or po_sub or sd):
+        return None
+
+    def kv(sig, d):
+        out = []
+        for n, i in (d or {}).items():
+            p = [q for q in named(sig) if q["name"] == n]
+            out.append([n, TYPES[p[0]["type"]][1][i][3] if p else "?"])
+        return out
+    return {"poTop": po_top, "poSub": po_sub, "sdTop": kv(top_sig, sd.get("top")), "sdSub": kv(msig, sd.get("sub"))}
+
+
 def real_run(case, argv):
     from jsonargparse import auto_cli
 
@@ -584,7 +638,7 @@ def real_run(case, argv):
     out = {}
     try:
         with contextlib.redirect_stderr(err), contextlib.redirect_stdout(io.StringIO()):
-            ret = auto_cli(comps, args=list(argv), as_positional=case["as_pos"], parser_class=Rec)
+            ret = auto_cli(comps, args=list(argv), as_positional=case["as_pos"], parser_class=Rec, **set_defaults_kw(case))
         c = selected(case)
         if isinstance(ret, str) and ret.startswith("ret:"):
             out["ret"] = ret[4:]
@@ -620,7 +674,7 @@ def wire_sig(sig):
     out = []
     for p in sig:
         has, d = (False, None)
-        if p["kind"] in ("pk", "ko") and p["default"] is not None:
+        if p["kind"] in ("pk", "ko", "po") and p["default"] is not None:
             has, d = True, TYPES[p["type"]][1][p["default"]][3]
         out.append({"name": p["name"], "kind": p["kind"], "dflt": [d] if has else [], "optional": p.get("type") in OPTIONAL_TYPES})
     return out
@@ -644,7 +698,9 @@ def model_line(case):
     if c["kind"] == "cls" and c["methods"] and case.get("method"):
         msig = [x for x in c["methods"] if x["name"] == case["method"]][0]["sig"]
     single = "comp" in case["tree"] or ("list" in case["tree"] and len(case["tree"]["list"]) == 1)
+    ext = ext_of(case) if single else None
     return {
+        **({"ext": ext} if ext else {}),
         "asPos": case["as_pos"], "single": single,
         "comps": [{"key": list(k), "comp": wire_comp(cc)} for k, cc in leaves(case["tree"])],
         "path": [] if single else list(case["path"]),
@@ -799,6 +855,50 @@ def negative_safe(case):
     return True
 
 
+SD_TYPES = ("int", "str", "float", "bool", "optint", "listint", "literal")
+
+
+def ext_cases(rng, idx):
+    """single components with positional-only parameters and / or auto_cli(set_defaults=...): the callee must receive the
+    given value, else the set_defaults value, else the signature default"""
+    c = gen_func(rng, "f%d" % idx) if rng.random() < 0.55 else gen_class(rng, "K%d" % idx)
+    c = json.loads(json.dumps(c))
+    sigs = [c["sig"]] if c["kind"] == "func" else [c["init"]] + [m["sig"] for m in c["methods"]]
+    if rng.random() < 0.45:
+        for sig in sigs:
+            k = rng.randint(0, 2)
+            if any(p["kind"] == "vk" for p in sig):
+                continue        # with **kwargs a positional-only NAME given by keyword lands in kwargs (outside the model)
+            for p in sig:
+                if p["kind"] != "pk" or k == 0:
+                    break
+                p["kind"] = "po"
+                k -= 1
+    tree = {"comp": c}
+    top_sig = c["sig"] if c["kind"] == "func" else c["init"]
+    out = []
+    for top in assignments(rng, top_sig, 2):
+        m = rng.choice(c["methods"]) if c["kind"] == "cls" and c["methods"] else None
+        sub = assignments(rng, m["sig"], 1)[0] if m else {}
+        case = {"tree": tree, "path": [], "method": m["name"] if m else None, "top": dict(top), "sub": dict(sub),
+                "channel": rng.choice(["argv", "config", "mixed"]), "as_pos": rng.random() < 0.7}
+        if rng.random() < 0.7:
+            sd = {"top": {}, "sub": {}}
+            for key, sig, given in (("top", top_sig, case["top"]), ("sub", m["sig"] if m else [], case["sub"])):
+                for p in sig:
+                    if visible(p) and not p["name"].startswith("_") and p["type"] in SD_TYPES and p["name"] not in CLASH and rng.random() < 0.5:
+                        sd[key][p["name"]] = rng.randrange(len(TYPES[p["type"]][1]))
+                        if p["name"] in given and rng.random() < 0.6:
+                            del given[p["name"]]            # not given: the set_defaults value must arrive
+                            case["as_pos"] = False
+            if sd["top"] or sd["sub"]:
+                case["set_defaults"] = sd
+        if not negative_safe(case):
+            case["as_pos"] = False
+        out.append(case)
+    return out
+
+
 def cases_for_tree(rng, tree, per_leaf):
     out = []
     lv = leaves(tree)
@@ -858,6 +958,10 @@ def finding_classes(case):
                 out.add(F_RESERVED)          # construction error, whichever component is selected
     if any(p["name"] == "subcommand" for p in named(top_sig)):
         out.add(F_RESERVED)
+    # a positional-only parameter that gets a parser argument: the parsed value is handed over by keyword
+    msig0 = [x for x in c["methods"] if x["name"] == case.get("method")][0]["sig"] if c["kind"] == "cls" and c["methods"] and case.get("method") else []
+    if any(p["kind"] == "po" and visible(p) for p in list(top_sig) + list(msig0)):
+        out.add(F_POSONLY)
     rel = [(top_sig, case["top"])]
     if c["kind"] == "cls" and c["methods"] and case.get("method"):
         rel.append(([x for x in c["methods"] if x["name"] == case["method"]][0]["sig"], case["sub"]))
@@ -932,7 +1036,7 @@ def corr_diff(case, real, m):
             return "return value: real %s, model %s" % (real["ret"], mv["ret"])
     elif real["calls"] != mv["calls"]:
         return "calls before the failure: real %s, model %s" % (json.dumps(real["calls"])[:200], json.dumps(mv["calls"])[:200])
-    ms = model_structure(m)
+    ms = model_structure(m) if not case.get("set_defaults") else None      # (the structure holds the overridden defaults)
     if real["structure"] is not None and ms is not None and real["structure"] != ms:
         return "parser structure: real %s, model %s" % (json.dumps(real["structure"])[:400], json.dumps(ms)[:400])
     return None
@@ -1152,7 +1256,7 @@ def run(ctx: Ctx):
     ctx.assumptions = [
         "type conversion of a single value (text/config value -> Python value) is taken from a hand-written table per type; its correctness is C02/C05",
         "generated parameter names avoid the CLI's own keys and prefixes of two parent options (open findings); those are covered by the fixed-seed vocabulary sweep",
-        "docstrings, coroutines, properties, positional-only and untyped parameters are outside",
+        "docstrings, coroutines, properties and untyped parameters are outside; positional-only parameters and set_defaults are generated for single components",
     ]
     ctx.lean_build(extractors=["cli_tables"])
     tmp = tempfile.mkdtemp(prefix="c12cfg_")
@@ -1165,7 +1269,7 @@ def run(ctx: Ctx):
         bad = run_cases(ctx, corpus_cases, "corpus", tmp)
 
         # generated trees
-        n_trees = ctx.budget(85, 900) * (2 if ctx.search_boost > 1 else 1)
+        n_trees = ctx.budget(78, 850) * (2 if ctx.search_boost > 1 else 1)
         cases = []
         for i in range(n_trees):
             tree = gen_tree(ctx.rng, i)
@@ -1174,6 +1278,13 @@ def run(ctx: Ctx):
         for c in cases[:3]:
             ctx.sample({"argv": build_argv(c, case_rng(c)), "module": tree_src(c["tree"])[len(PREAMBLE):][:600]})
         bad += run_cases(ctx, cases, "generated", tmp)
+
+        # positional-only parameters and auto_cli(set_defaults=...) on single components
+        xcases = []
+        for i in range(ctx.budget(60, 500)):
+            xcases.extend(ext_cases(ctx.rng, i))
+        bad += run_cases(ctx, xcases, "extended", tmp)
+        ctx.extra["positional_only_and_set_defaults_cases"] = len(xcases)
 
         # exhaustive small scope: every signature of up to 1 (quick) / 2 (thorough) parameters over kind x default x
         # {int, Optional[int]}, as a function and as constructor + method, every assignment, every channel
